@@ -7,11 +7,11 @@ Case lines
                                     the switch, emit = out.add(v) (the set a branch instance has published so far)
   3 key slot usekey                 case entry: key value -> body table slot; usekey: the branch takes the key as first argument
   4 slot usekey                     default branch
-  5 slot sos etick ewake rtick rwake d c m l acc cnt wk     body table entry (see below)
+  5 slot sos etick ewake rtick rwake d c m l acc cnt wk [erun [sd]]     body table entry (see below)
   6 src t v                         scripted source tick: src 0 = key, 1 = first ts argument, 2 = second; at time t value v
 
 Branch body (one node, State<Int> st, NodeScheduler): inputs = [key if usekey] + the nts arguments, all must be valid to run.
-  start hook: if sos: schedule(now)
+  start hook: if sos: schedule(now + sd)          (sd = 0: the start cycle itself; sd > 0: a later timer)
   evaluation: ticked = some input valid and modified; woke = scheduler.is_scheduled_now()
      if ticked: st += acc * sum(modified inputs) + cnt;  if woke: st += wk
      if (ticked and etick) or (woke and ewake): emit c + m*st + l*sum(valid inputs)
@@ -43,7 +43,7 @@ BUDGET = {"quick": 400, "thorough": 40000}
 NSLOT = 6
 
 # ---------------------------------------------------------------- generator
-ARCH = ["lin", "acc", "count", "timer", "ticker", "echo", "mixed"]
+ARCH = ["lin", "acc", "count", "timer", "ticker", "echo", "mixed", "startarm", "startarm"]
 
 
 def _body(rng):
@@ -58,10 +58,15 @@ def _body(rng):
     elif a == "timer":     # arms a timer on every tick, emits when it fires
         b.update(etick=rng.choice([0, 0, 1]), ewake=1, rtick=1, d=rng.randint(1, 5), acc=1, m=1, l=0, c=100)
     elif a == "ticker":    # self-scheduling source-like body
-        b.update(sos=1, etick=rng.choice([0, 1]), ewake=1, rwake=1, d=rng.randint(1, 4), wk=1, m=1, l=rng.choice([0, 1]), c=200)
+        b.update(sos=1, sd=rng.choice([0, 0, 1, 3]), etick=rng.choice([0, 1]), ewake=1, rwake=1, d=rng.randint(1, 4), wk=1, m=1, l=rng.choice([0, 1]), c=200)
     elif a == "echo":      # emits on tick and once more d later
         b.update(etick=1, ewake=1, rtick=1, d=rng.randint(1, 3), acc=0, cnt=1, wk=10, m=1, l=1)
+    elif a == "startarm":  # the START hook arms a LATER timer; the body also reads the held inputs
+        b.update(sos=1, sd=rng.randint(1, 5), etick=1, ewake=rng.randint(0, 1), rwake=rng.randint(0, 1), rtick=rng.choice([0, 0, 1]),
+                 d=rng.randint(1, 4), acc=rng.choice([0, 1]), cnt=rng.choice([0, 1]), wk=rng.choice([0, 10]), m=1, l=rng.choice([0, 1]),
+                 c=rng.choice([0, 300]))
     else:
+        b.update(sd=rng.choice([0, 0, 0, 1, 2, 4]))
         b.update(sos=rng.randint(0, 1), etick=rng.randint(0, 1), ewake=rng.randint(0, 1), rtick=rng.randint(0, 1),
                  rwake=rng.randint(0, 1), d=rng.choice([-1, 0, 1, 1, 2, 3, 6]), c=rng.randint(-3, 9), m=rng.randint(-1, 2),
                  l=rng.randint(-1, 2), acc=rng.randint(0, 2), cnt=rng.randint(0, 2), wk=rng.randint(0, 3))
@@ -74,14 +79,16 @@ def _body_nested(rng):
     the body is insensitive to the modified-flag difference documented in notes-switch.md section 6."""
     return dict(sos=rng.randint(0, 1), etick=rng.randint(0, 1), ewake=rng.randint(0, 1), rtick=0, rwake=rng.randint(0, 1),
                 d=rng.choice([1, 1, 2, 3, 4]), c=rng.randint(-5, 20), m=rng.randint(-1, 2), l=rng.choice([1, 1, 2, -1, 0]),
-                acc=0, cnt=0, wk=rng.randint(0, 3), erun=1)
+                acc=0, cnt=0, wk=rng.randint(0, 3), erun=1, sd=rng.choice([0, 0, 1, 2, 3]))
 
 
 def _body_line(slot, b):
     l = [5, slot, b["sos"], b["etick"], b["ewake"], b["rtick"], b["rwake"], b["d"], b["c"], b["m"], b["l"], b["acc"],
          b["cnt"], b["wk"]]
-    if b.get("erun"):
-        l.append(1)
+    if b.get("erun") or b.get("sd"):
+        l.append(int(bool(b.get("erun"))))
+    if b.get("sd"):
+        l.append(b["sd"])
     return l
 
 
@@ -217,7 +224,7 @@ def _malformed(rng):
 # ---------------------------------------------------------------- parsing
 def parse_case(case):
     d = dict(start=1, end=10, nts=1, reload=0, shape=0, depth=0, ents=[], dflt=None, tab=[None] * NSLOT, hist={0: {}, 1: {}, 2: {}})
-    dfl = dict(sos=0, etick=1, ewake=0, rtick=0, rwake=0, d=1, c=0, m=0, l=1, acc=0, cnt=0, wk=0, erun=0)
+    dfl = dict(sos=0, etick=1, ewake=0, rtick=0, rwake=0, d=1, c=0, m=0, l=1, acc=0, cnt=0, wk=0, erun=0, sd=0)
     d["tab"] = [dict(dfl) for _ in range(NSLOT)]
     for l in case:
         if l[0] == 1 and len(l) >= 3:
@@ -236,6 +243,7 @@ def parse_case(case):
             for n in names[:5]:
                 b[n] = int(b[n] != 0)
             b["erun"] = int(len(l) >= 15 and l[14] != 0)
+            b["sd"] = l[15] if len(l) >= 16 else 0
             d["tab"][l[1]] = b
         elif l[0] == 6 and len(l) >= 4 and 0 <= l[1] <= 2:
             d["hist"][l[1]].setdefault(l[2], l[3])
@@ -273,8 +281,8 @@ def alone(d, br, t0, t1, stop_on=None):
 
     st = 0
     timers = set()
-    if b["sos"]:
-        timers.add(t0)
+    if b["sos"] and b["sd"] >= 0:
+        timers.add(t0 + b["sd"])
     outs, runs = [], []
     t = t0
     first = True
